@@ -308,6 +308,51 @@ def _emitted_sample(res: core.TLCResult, limit: int, rnd: random.Random) -> tupl
     return [json.loads(json.loads(ln)) for ln in lines], total
 
 
+def _star_sample(res: core.TLCResult, limit: int, rnd: random.Random) -> tuple[list[dict], int, int]:
+    """The pairs of the typed *args/**kwargs slice: every pair in which BOTH signatures have **kwargs (the stratum in
+    which consumed_positional / consumed_required_pos_only / consumed_keyword decide which actual parameters are
+    compared with the expected **kwargs type) plus a random sample of the others, `limit` in total.
+    Returns (cases, total emitted, size of the stratum)."""
+    import json
+
+    lines = [ln for ln in res.stdout.splitlines() if ln.startswith('"{')]
+    total = len(lines)
+    vk = '\\"kind\\":\\"vk\\"'
+    both = [ln for ln in lines if ln.count(vk) == 2]
+    rest = [ln for ln in lines if ln.count(vk) != 2]
+    if len(both) > limit:
+        both = rnd.sample(both, limit)
+    n = min(len(rest), max(0, limit - len(both)))
+    picked = both + rnd.sample(rest, n)
+    return [json.loads(json.loads(ln)) for ln in picked], total, len(both)
+
+
+def run_star(check: core.Check, quick: bool, rnd: random.Random) -> None:
+    """Typed *args / **kwargs slice (spec/SigCompatStar.tla): annotated *args / **kwargs and defaulted positional
+    parameters on both sides, types B, U (unrelated) and Any."""
+    cfg = "SigCompatStar.quick.cfg" if quick else "SigCompatStar.thorough.cfg"
+    res = core.require_ok(core.run_tlc("SigCompatStarEmit", cfg, timeout=3000), "SigCompatStar " + cfg)
+    check.add_tlc("exhaustive:" + cfg, res)
+    cases, total, stratum = _star_sample(res, 3600 if quick else 60000, rnd)
+    del res
+    r = core.run_tlc("SigCompatStar", "SigCompatStar.sens.cfg", timeout=900, workers=4)
+    if r.violated != "TypesSound":
+        raise core.MachineryError(f"sensitivity self-test failed: SigCompatStar.sens.cfg did not violate TypesSound ({r.error})")
+    check.cov["sensitivity"] += "; SigCompatStar.sens.cfg (every positionally consumed parameter exempt from the **kwargs check) violates TypesSound"
+    check.cov["model_cases"] += total
+    check.cov["replayed_cases"] += len(cases)
+    check.cov["star_slice"] = {"pairs": total, "replayed": len(cases), "both_have_kwargs_replayed": stratum}
+    check.cov["rule"] += (
+        "; typed *args/**kwargs slice = pairs of SigCompatStar.tla (kinds restricted per side, types B / unrelated U / Any on "
+        "every parameter incl. *args and **kwargs): every pair in which both signatures have **kwargs is replayed, the rest sampled"
+    )
+    before = check.cov.get("accepted_pairs", 0)
+    obs_n = check.cov["evaluations"]
+    judge(check, cases, "tlc-exhaustive-star-typed", n_visitor=200 if quick else 4000, rnd=rnd)
+    if check.cov["accepted_pairs"] == before or check.cov["evaluations"] == obs_n:
+        raise core.MachineryError("typed *args/**kwargs slice: no accepted pair observed (vacuous)")
+
+
 def run(check: core.Check) -> None:
     quick = check.tier == "quick"
     rnd = random.Random(check.seed)
@@ -315,8 +360,10 @@ def run(check: core.Check) -> None:
         "TLC 1.8.0; behavioural inclusion is stated with CPythonBind.tla (RefBinds, the C05 oracle) and validated in every "
         "run against really calling both functions with every call shape (<=3 positionals, <=3 keywords over all parameter "
         "names and one foreign name)",
-        "types are a chain C <: B <: A <: object of user classes (ranks 0..3) or unannotated; the membership model is "
-        "subclass inclusion on that chain (checked against issubclass of the realised classes)",
+        "types are a chain C <: B <: A <: object of user classes (ranks 0..3), a class U unrelated to it (rank 5), or "
+        "unannotated; the membership model is subclass inclusion (checked against issubclass of the realised classes, and, "
+        "shape by shape, against really calling the actual function with instances of the types the expected signature "
+        "declares and isinstance-checking what every annotated parameter received)",
         "expected parameters are named a, b, c by position (no loss of generality up to renaming); actual parameters range "
         "over those names and one other",
     ]
@@ -380,6 +427,8 @@ def run(check: core.Check) -> None:
     if len(uniq) < num // 4:
         raise core.MachineryError(f"simulation produced only {len(uniq)} distinct cases")
     judge(check, list(uniq.values()), "tlc-simulate", n_visitor=300 if quick else 3000, rnd=rnd)
+    # 3b. typed *args / **kwargs slice with an unrelated class
+    run_star(check, quick, rnd)
     # 4. the entry points in front of Signature.can_assign: overrides (class hierarchies), Callable[[..], R] parameters,
     # protocol methods (spec/CallableRoutes.tla, harness/drivers/c07b.py)
     from . import c07b
@@ -417,9 +466,22 @@ def selftest_binding(check: core.Check) -> None:
     variants["known unsound pair (a, /, **b) <- (a, **b)"] = o
     rej = observe_one((4, {"exp": [P("pk", "a")], "act": [P("pk", "b")], "exp_ret": ANY, "act_ret": ANY}))
     variants["rejected pair (a) <- (b) recorded as accepted"] = dict(rej, real={"verdict": "ok", "why": "Final_Ok"})
+    # typed: f(a: B = .., /, **b: U) <- g(a: B = .., **b: U) is rejected (f(a=U()) would put a U into g's a: B)
+    T = lambda kind, name, dflt, ty: {"kind": kind, "name": name, "dflt": dflt, "ty": ty}  # noqa: E731
+    kw = {"exp": [T("po", "a", True, 1), T("vk", "b", False, UNRELATED)],
+          "act": [T("pk", "a", True, 1), T("vk", "b", False, UNRELATED)], "exp_ret": ANY, "act_ret": ANY}
+    tk = observe_one((5, kw))
+    if tk["real"]["why"] != "VK_ExtraKeywordType" or [0, ["a"], False] not in tk["tc"]:
+        raise core.MachineryError(f"binding self-test: unexpected observation of the typed **kwargs pair: {tk['real']} {tk['tc']}")
+    variants["typed **kwargs pair, rejected"] = tk
+    variants["typed **kwargs pair recorded as accepted (defaulted positional exempt from the **kwargs check)"] = dict(
+        tk, tid=6, real={"verdict": "ok", "why": "Final_Ok"})
+    variants["typed call outcome f(a=U()) -> g flipped"] = dict(
+        tk, tid=7, tc=[[n, ks, (not ok) if (n, ks) == (0, ["a"]) else ok] for n, ks, ok in tk["tc"]])
     verdicts, _ = core.adjudicate("SigCompatTrace", "SigCompatTrace.cfg", list(variants.values()))
     expect = {0: [], 1: ["drift:verdict"], 2: ["oracle:actual-binds"], 3: ["dev:keyword-also-positional"],
-              4: ["viol:BehaviourallySound", "drift:verdict"]}
+              4: ["viol:BehaviourallySound", "drift:verdict"], 5: [],
+              6: ["viol:TypesSound", "dev:keyword-also-positional", "drift:verdict"], 7: ["oracle:typed-calls"]}
     for name, ob in variants.items():
         got = verdicts.get(ob["tid"], [])
         print(f"selftest-binding: {name}: TLC verdicts {got}")
